@@ -1171,10 +1171,9 @@ pub fn replay_main(reg: &Registry, path: &str) -> i32 {
         }
     };
     let id = v["property"].as_str().unwrap_or("");
-    let prop = match reg.get(id) {
-        Some(p) => p,
-        None => return 2,
-    };
+    if reg.get(id).is_none() {
+        return 2;
+    }
     let space = v["space_index"].as_u64().unwrap_or(0) as usize;
     let exe = std::env::current_exe().unwrap();
     let strict = std::env::var("LSVERIF_STRICT").is_ok();
@@ -1199,7 +1198,6 @@ pub fn replay_main(reg: &Registry, path: &str) -> i32 {
         return 0;
     }
     let mut p = Prober::new(&exe, id, space, false, strict);
-    let _ = prop_static(reg, id);
     match p.test_line(&line) {
         ProbeAns::Pass { .. } => {
             println!("replay passes: property={} case no longer fails", id);
